@@ -32,7 +32,7 @@ fn gen_pth(rng: &mut Rng, n: usize) -> Vec<u8> {
     v
 }
 fn gen_smx(rng: &mut Rng, nobj: usize, ncp: usize, dirty: bool) -> Vec<u8> {
-    let mut v = b"LFSSMX".to_vec(); v.extend(rng.bytes(6)); v.extend(if dirty { rng.bytes(4) } else { vec![0; 4] });
+    let mut v = b"LFSSMX".to_vec(); let mut hd = rng.bytes(6); for h in hd.iter_mut() { if rng.chance(1, 2) { *h = *rng.pick(&[0u8, 1, 2, 3, 4, 255]); } } v.extend(hd); v.extend(if dirty { rng.bytes(4) } else { vec![0; 4] });   // header bytes (versions, dimensions, resolution): small values as likely as any
     let tl = rng.below(33) as usize; let mut t = crate::layout::ascii_text(rng, tl); t.resize(32, 0); if dirty && tl < 30 { t[31] = b'x'; } v.extend(t);
     v.extend(rng.bytes(3)); v.extend(if dirty { rng.bytes(9) } else { vec![0; 9] });
     v.extend((nobj as i32).to_le_bytes());
@@ -72,7 +72,7 @@ pub fn run(a: &Args) {
         if peak > 16 * b.len() + (256 << 10) { st.fail(format!("[C17] parsing a {}-byte {tag} input allocated {peak} bytes", b.len()), id.clone()); }
         match r {
             None => { st.fail(format!("[C17] the {tag} parser (or writer) panics"), id); "P".into() },
-            Some(Err(())) => "E".into(),
+            Some(Err(())) => { if canonical { st.fail(format!("[C17] a well-formed {tag} file of {} bytes (magic, consistent counts, complete content) is rejected", b.len()), id.clone()); } "E".into() },
             Some(Ok((w, dbg, pos))) => {
                 // an image is the same image wherever it lies in a stream (inside a container, behind a header the caller has already read):
                 // parsing it at a non-zero stream position gives the same structure and consumes the same bytes, writing it there gives the same bytes
